@@ -61,6 +61,17 @@ CHECKS = {
          "str::split/splitn/trim/starts_with, u64::from_str, char::is_whitespace (Unicode White_Space) and Display for u64 are modelled, not verified; "
          "strings are valid UTF-8 shorter than 2^64 bytes; EndpointID values assembled directly from the public enum variants are outside the property.",
          "DESIGN.md section 6 C10"),
+ "C16": ("Coq theorems C16_ippt (for every scope-flag value < 8, every primary without CRC, every target block of any type and every security "
+         "header the transcription of IntegrityProtectedPlaintext::create equals the RFC 9173 3.7 concatenation written with the generic CBOR "
+         "writer; C16_ippt_raw_flags says what happens beyond bit 2), C16_result_shape (compute_hmac yields exactly one (1, HMAC-SHA2(key, ippt)) "
+         "pair per IPPT entry in IPPT order for variants 5/6/7 and every key; proved for an abstract keyed hash and instantiated), "
+         "C16_asb_layout / C16_bib_pipeline / C16_bib_block (to_cbor = ser of the RFC 9172 3.6 item sequence; BIB = canonical block of type 11), "
+         "C16_ippt_injective / C16_ippt_injective_target (same flags + same IPPT => same data bytes, primary, target header, security header as "
+         "selected; by parsing both sides back with the model decoder); RFC 9173 A.1 IPPT / signature / ASB / BIB / bundle re-computed by the "
+         "kernel; K-sec channel: all target types x 8 scope flags x 3 SHA variants x random and boundary keys through the public bpsec API, "
+         "judged by an independent Python recomputation (hashlib/hmac + own CBOR writer).",
+         "sha2/hmac crates tied to the executable SHA-2 model by differential testing and RFC vectors only; ASB clause for consistent blocks "
+         "(parameters present, flag bit 0 set); scope flags < 8.", "DESIGN.md section 6 C16"),
  "C17": ("Coq theorems C17_unix, C17_string_denotes (every t up to 9999-12-31T23:59:59.999Z: output is the RFC 3339 rendering of valid calendar fields whose "
          "days-from-civil instant is t+offset; date step proved for every day number from one 146097-day vm_compute sweep lifted by 400-year periodicity), "
          "C17_format_total, C17_now, over a transcription of dtntime.rs and humantime's formatter; constants regenerated from the Rust source; K-time "
@@ -76,7 +87,7 @@ PENDING = {
  "C05": "check not built yet (CRC window algebra is proved in Proofs/CrcAlgebra.v; pipeline theorem and channel pending)",
 
  "C11": "check not built yet", "C12": "check not built yet", "C13": "check not built yet", "C14": "check not built yet",
- "C15": "check not built yet", "C16": "check not built yet", "C19": "check not built yet", "C20": "check not built yet",
+ "C15": "check not built yet", "C19": "check not built yet", "C20": "check not built yet",
 }
 
 
